@@ -424,6 +424,22 @@ fn real_states(tier: Tier) -> Vec<(String, ObservableInstanceState, Vec<String>)
             let _ = announce_twice_and_bmca(n, 0, &mut a);
         });
     }
+    // a slave three steps from the grandmaster loses its master: the port is master (or, on a
+    // slave-only instance, listening) and the data sets still name the old parent until the BMCA runs
+    for slave_only in [false, true] {
+        let mut spec = two(false);
+        spec.slave_only = slave_only;
+        if slave_only {
+            spec.ports.truncate(1);
+        }
+        add(&format!("slave-then-receipt-timeout-before-bmca-{slave_only}"), spec, &|n| {
+            let mut a = Peer::gm(1, 1);
+            a.steps_removed = 3;
+            a.gm_identity = [0xcc, 9, 9, 9, 9, 9, 9, 9];
+            let _ = announce_twice_and_bmca(n, 0, &mut a);
+            let _ = receipt_timeout(n, 0);
+        });
+    }
     add("passive", { let mut n = two(false); n.class = 6; n }, &|n| {
         let mut a = Peer::gm(1, 1);
         let _ = announce_twice_and_bmca(n, 0, &mut a);
@@ -537,6 +553,45 @@ pub fn run(tier: Tier) -> i32 {
     let mut viols: BTreeMap<String, Violation> = BTreeMap::new();
     let mut samples = vec![];
     let reals = real_states(tier);
+    // the public BasicFilter behind a real slave port: after a Sync, a complete delay exchange and
+    // a second Sync that finds the clock off by theta, the exposed offsetFromMaster is theta and
+    // the exposed meanDelay the path delay (symmetric path of 1000 ns; theta up to +-10 s)
+    for theta in [0i64, 500_000, -500_000, 900_000_000, 1_500_000_000, -1_500_000_000, 5_000_000_000, -5_000_000_000, 10_000_000_000] {
+        use statime::filters::BasicFilter;
+        let d: i64 = 1000;
+        let got = with_node::<BasicFilter, _>(&NodeSpec::default(), |_| 0.25, |n| {
+            let mut a = Peer::gm(1, 1);
+            let _ = announce_twice_and_bmca(n, 0, &mut a);
+            let own = own_pid(n, 0);
+            let t = 50_000_000_000u64;
+            // Sync 0 (clock exact), delay exchange, Sync 1 (clock off by theta)
+            let _ = event(n, 0, &a.sync(1, true, rc::Ts::default(), 0), time_ns(t + d as u64));
+            let _ = general(n, 0, &a.follow_up(1, rc::Ts::from_ns(t as u128), 0));
+            let mut acts = delay_timer(n, 0);
+            if let Some((ctx, req)) = take_ctx(&mut acts) {
+                let seq = rc::decode(&req).map(|m| m.hdr.seq).unwrap_or(0);
+                let t3 = t + 1_000_000;
+                let _ = collect(n.port(0).handle_send_timestamp(ctx, time_ns(t3)));
+                let _ = general(n, 0, &a.delay_resp(seq, rc::Ts::from_ns((t3 + d as u64) as u128), 0, &own));
+            }
+            let t1 = t + 1_000_000_000;
+            let t2 = (t1 as i64 + d + theta) as u64;
+            let _ = event(n, 0, &a.sync(2, true, rc::Ts::default(), 0), time_ns(t2));
+            let _ = general(n, 0, &a.follow_up(2, rc::Ts::from_ns(t1 as u128), 0));
+            let c = (0..n.ports.len()).find_map(|p| n.port_ref(p).port_current_ds_contribution());
+            let cur = n.inst.current_ds(c);
+            (dur_to_bits(cur.offset_from_master), dur_to_bits(cur.mean_delay))
+        });
+        let want = ((theta as i128) << 32, (d as i128) << 32);
+        if got != want {
+            let field = if got.0 != want.0 { "offset_from_master" } else { "mean_delay" };
+            viols.entry(format!("getter-differs-from-live-state:current_ds.{field}(BasicFilter)")).or_insert(Violation {
+                signature: format!("getter-differs-from-live-state:current_ds.{field}(BasicFilter)"),
+                message: format!("BasicFilter slave, last Sync measured an offset of {theta} ns over a {d} ns path: exposed offsetFromMaster {} ns, meanDelay {} ns", got.0 >> 32, got.1 >> 32),
+                replay: json!({"state": format!("basic-filter-theta-{theta}")}),
+            });
+        }
+    }
     let mut all: Vec<(String, ObservableInstanceState)> = vec![];
     for (name, o, bad) in &reals {
         for b in bad {
